@@ -19,7 +19,8 @@ def emu(build, tracedir, args=(), timeout=30, env=None):
 
 
 def accepted(res):
-    return res.rc == 0 and res.sig == 0 and "emulation finished ok" in res.err
+    # exit status only: the wording of the final INFO line is not part of any property
+    return res.rc == 0 and res.sig == 0 and not res.timeout
 
 
 def rejected_cleanly(res):
